@@ -2,6 +2,7 @@ package main
 
 import (
 	"fmt"
+	"strconv"
 	"go/token"
 	"go/types"
 	"math/big"
@@ -620,6 +621,14 @@ func convInt(term string, from, to types.Type) string {
 
 // copyFact: forall a in [dst, dst+n): dstArr[a] = srcArr[src + a - dst]; elsewhere dstArr = baseArr.
 func (u *Unit) copyArray(dstSite, sort string, baseArr, srcArr, dst, src, n string) string {
+	if k, err := strconv.Atoi(n); err == nil && k >= 0 && k <= 64 {
+		// constant small length: explicit stores (quantifier-free)
+		arr := baseArr
+		for i := 0; i < k; i++ {
+			arr = store(arr, add(dst, intLit(int64(i))), sel(srcArr, add(src, intLit(int64(i)))))
+		}
+		return u.ctx.def("Mc:"+dstSite, SArr(SInt, sort), arr)
+	}
 	na := u.ctx.freshConst("Mc:"+dstSite, SArr(SInt, sort))
 	a := "a!"
 	body := ite(and(le(dst, a), lt(a, add(dst, n))), sel(srcArr, add(src, sub(a, dst))), sel(baseArr, a))
